@@ -135,9 +135,10 @@ struct Array {
             resize(n_size);
         }
 
+        Type_T       *storage  = (Storage() + Size());
+
         index_ += src.Size();
 
-        Type_T       *storage  = Storage();
         const Type_T *src_item = src.First();
         const Type_T *src_end  = (src_item + src.Size());
 
